@@ -9,6 +9,7 @@ mod valid_until;
 mod export_crash;
 mod access_list;
 mod validator;
+mod udp_codec;
 
 use std::collections::HashMap;
 
@@ -107,6 +108,7 @@ fn main() {
         "export-crash" => export_crash::run(&args),
         "access-list" => access_list::run(&args),
         "validator" => validator::run(&args),
+        "udp-codec" => udp_codec::run(&args),
         "export-child" => export_crash::child(&args),
         other => {
             eprintln!("unknown suite {}", other);
